@@ -111,7 +111,8 @@ class SshProtocolMessage(ParsableBase):
         parser.parse_string_until_separator('software_version_and_comment', '\n')
         software_version_and_comment = parser['software_version_and_comment'].split(' ')
 
-        if software_version_and_comment[-1].endswith('\r'):
+        has_carriage_return = software_version_and_comment[-1].endswith('\r')
+        if has_carriage_return:
             software_version_and_comment[-1] = software_version_and_comment[-1][:-1]
 
         software_version_parser = ParserText(six.ensure_binary(software_version_and_comment[0], 'ascii'))
@@ -126,8 +127,10 @@ class SshProtocolMessage(ParsableBase):
             comment = None
         parser.parse_string('separator', '\n')
 
-        if parser.parsed_length > 255:
-            raise TooMuchData(parser.parsed_length - 255)
+        # the limit applies to the line as it is composed, that is ended by CR LF (a bare LF is tolerated on input)
+        line_length = parser.parsed_length if has_carriage_return else parser.parsed_length + 1
+        if line_length > 255:
+            raise TooMuchData(line_length - 255)
 
         return SshProtocolMessage(
             parser['protocol_version'],
